@@ -88,6 +88,8 @@ def judge(case, impl_out, spec):
             if int(f["expected"]) == dims[i]:
                 return "shape error with expected == actual"
             exp = _expected_value(c, f["tensor"], i)
+            if exp is not None and not exp:
+                return f"shape error reports expected={f['expected']} for axis {i}, but that axis is the first occurrence of its name: nothing before it (tensors, provider) binds it"
             if exp is not None and int(f["expected"]) not in exp:
                 return f"shape error reports expected={f['expected']} for axis {i}; under the bindings of the tensors before it the axis demands {sorted(exp)}"
         elif kind == "invalidref":
@@ -160,6 +162,8 @@ def _expected_value(c, tensor, axis):
                 elif d[0] == "name":
                     if d[1] in sigma:
                         out.add(sigma[d[1]])
+                    else:
+                        return set()   # the first occurrence of a plain name demands nothing: no shape error can be true of it
                 elif d[0] == "namedlit":
                     out.add(d[2])
                     if d[1] in sigma:
